@@ -85,6 +85,26 @@ func headStrings(s []string, n int) []string {
 	return out
 }
 
+// firstDiff describes the first position at which two canonical results differ.
+func firstDiff(a, b []string) string {
+	n := len(a)
+	if len(b) < n {
+		n = len(b)
+	}
+	for i := 0; i < n; i++ {
+		if a[i] != b[i] {
+			return fmt.Sprintf("row %d: %q vs %q (lens %d/%d)", i, truncate(a[i], 120), truncate(b[i], 120), len(a), len(b))
+		}
+	}
+	if len(a) > n {
+		return fmt.Sprintf("row %d: %q vs <none> (lens %d/%d)", n, truncate(a[n], 120), len(a), len(b))
+	}
+	if len(b) > n {
+		return fmt.Sprintf("row %d: <none> vs %q (lens %d/%d)", n, truncate(b[n], 120), len(a), len(b))
+	}
+	return "equal"
+}
+
 func sameRows(a, b []string) bool {
 	if len(a) != len(b) {
 		return false
@@ -164,6 +184,8 @@ type c26worker struct {
 	xb   *sqlrig.Session // voice 2: kvexec bypassed
 	xg   *sqlrig.Session // voice 4: reference
 	idD  uint32
+	srv  *sqlrig.Server
+	ref  *gmsRef
 	smu  *sync.Mutex
 	seen map[string]bool // plan ops already sampled
 }
@@ -264,12 +286,53 @@ type voiceResult struct {
 	err  error
 }
 
-func (w *c26worker) run(x *sqlrig.Session, q *query, voice int) voiceResult {
+// voice ids for run
+const (
+	runDolt = iota
+	runBypass
+	runTwin
+	runRef
+)
+
+func (w *c26worker) run(which int, q *query) voiceResult {
+	x, voice := w.xd, vIndexed
+	switch which {
+	case runBypass:
+		x = w.xb
+	case runTwin:
+		voice = vTwin
+	case runRef:
+		x, voice = w.xg, vRef
+	}
 	rs, err := x.Query(q.sql(voice))
 	if err != nil {
+		if sqlrig.IsConnErr(err) {
+			// the server dropped the connection (a recovered panic in its handler): reconnect so that later queries of
+			// this worker are not lost; the error itself is judged like any other error of that voice
+			w.cnt.add(fmt.Sprintf("connection_lost.voice%d", which), 1)
+			w.reopen(which, q.schema.DB)
+		}
 		return voiceResult{err: err}
 	}
 	return voiceResult{rows: q.canonRows(rs)}
+}
+
+func (w *c26worker) reopen(which int, db string) {
+	switch which {
+	case runRef:
+		w.xg.Close()
+		xg, err := w.ref.open(db)
+		rig.Must(err)
+		w.xg = xg
+	case runBypass:
+		w.xb.Close()
+		w.xb = w.srv.MustOpen(db)
+		w.obs.bypass(connID(w.xb))
+	default:
+		w.xd.Close()
+		w.xd = w.srv.MustOpen(db)
+		w.idD = connID(w.xd)
+	}
 }
 
 // judge runs one query through all voices and applies the verdict rule.
@@ -277,12 +340,12 @@ func (w *c26worker) judge(caseName string, q *query) {
 	cnt := w.cnt
 	sql1 := q.sql(vIndexed)
 	w.obs.takeLast(w.idD)
-	r1 := w.run(w.xd, q, vIndexed)
+	r1 := w.run(runDolt, q)
 	kv := w.obs.takeLast(w.idD)
 	plan := readPlan(w.xd, sql1)
-	r2 := w.run(w.xb, q, vIndexed)
-	r3 := w.run(w.xd, q, vTwin)
-	r4 := w.run(w.xg, q, vRef)
+	r2 := w.run(runBypass, q)
+	r3 := w.run(runTwin, q)
+	r4 := w.run(runRef, q)
 	r5, has5 := q.eval()
 
 	op := plan.op()
@@ -371,7 +434,7 @@ func (w *c26worker) judge(caseName string, q *query) {
 				// dolt equals the reference engine: the statement (same results as the reference) holds; the harness's
 				// MySQL-semantics model disagrees with go-mysql-server's expression semantics. Recorded, not a violation.
 				cnt.add("model_divergence", 1)
-				w.c.Note("model-divergence (dolt == reference != model): " + truncate(sql1, 400))
+				w.c.Note("model-divergence (dolt == reference != model): " + truncate(sql1, 400) + " :: " + firstDiff(r1.rows, r5))
 				return
 			}
 			fill()
@@ -381,11 +444,11 @@ func (w *c26worker) judge(caseName string, q *query) {
 		cnt.add("model_agrees", 1)
 		if ok4 && !sameRows(r1.rows, r4.rows) {
 			cnt.add("reference_divergence", 1)
-			w.c.Note("reference-divergence (dolt == model != reference): " + truncate(sql1, 400))
+			w.c.Note("reference-divergence (dolt == model != reference): " + truncate(sql1, 400) + " :: " + firstDiff(r1.rows, r4.rows))
 		}
 		if ok3 && !sameRows(r1.rows, r3.rows) {
 			cnt.add("twin_divergence", 1)
-			w.c.Note("twin-divergence (dolt indexed == model != dolt keyless twin): " + truncate(q.sql(vTwin), 400))
+			w.c.Note("twin-divergence (dolt indexed == model != dolt keyless twin): " + truncate(q.sql(vTwin), 400) + " :: " + firstDiff(r1.rows, r3.rows))
 		}
 		return
 	}
@@ -452,7 +515,7 @@ func c26(c *rig.Ctx) {
 		wg.Add(1)
 		go func() {
 			defer wg.Done()
-			w := &c26worker{c: c, l: l, cnt: cnt, obs: obs, smu: &smu, seen: seen}
+			w := &c26worker{c: c, l: l, cnt: cnt, obs: obs, smu: &smu, seen: seen, srv: srv, ref: ref}
 			w.xd = srv.MustOpen("")
 			w.xb = srv.MustOpen("")
 			defer w.xd.Close()
